@@ -34,6 +34,12 @@
 (* Sweep, which evaluates the very operators the actions use (AddOpens,    *)
 (* SetURLOpens, InjectOpens, RefreshOpens) and prints them as one vector   *)
 (* for the Go harness to replay through all three entry points.            *)
+(* SafePath.walk.cfg (Mode = "walk") is the "mc" machine again, viewed     *)
+(* through <<pats, known>> only, printing every edge of that graph         *)
+(* (source table, step, bound on what the step may open): the harness      *)
+(* covers these edges with walks on ONE live server each, because the      *)
+(* invariant is over all states of the machine, not over single calls --   *)
+(* what a server accepted earlier must not change what it opens later.     *)
 (*                                                                         *)
 (* The file tree, the working directory, the globs and the locations are   *)
 (* small finite sets chosen to contain every distinction the statement     *)
@@ -51,7 +57,8 @@
 EXTENDS Sequences, Naturals, FiniteSets, TLC, Json
 
 CONSTANT Mode    \* "mc": small location set, all histories;  "gen": large
-                 \* location set, one entry step each, vectors emitted
+                 \* location set, one entry step each, vectors emitted;
+                 \* "walk": the "mc" machine, every edge printed
 
 VARIABLES pats, known, opened, last
 vars == <<pats, known, opened, last>>
@@ -156,11 +163,18 @@ InjectOpens(l)  == {}            \* loading the configuration opens no list sour
 
 Room(l) == l \in known \/ Cardinality(known) < MaxKnown
 
+\* "walk" mode: the edge just taken, for the harness's edge-covering walks.
+Edge(act, l, bound) ==
+    Mode = "walk" =>
+      PrintT(<<"@@V", ToJson([t |-> "e", cfg |-> pats, src |-> known, act |-> act, loc |-> l,
+                              may |-> bound])>>)
+
 Add(l) == /\ Room(l)
           /\ known'  = known \cup {l}
           /\ opened' = AddOpens(l)
           /\ last'   = [act |-> "add", loc |-> l]
           /\ UNCHANGED pats
+          /\ Edge("add", l, opened')
 
 \* Editing needs a list to edit.
 SetURL(l) == /\ Room(l)
@@ -169,22 +183,26 @@ SetURL(l) == /\ Room(l)
              /\ opened' = SetURLOpens(l)
              /\ last'   = [act |-> "seturl", loc |-> l]
              /\ UNCHANGED pats
+             /\ Edge("seturl", l, opened')
 
 Inject(l) == /\ Room(l)
              /\ known'  = known \cup {l}
              /\ opened' = InjectOpens(l)
              /\ last'   = [act |-> "inject", loc |-> l]
              /\ UNCHANGED pats
+             /\ Edge("inject", l, opened')
 
 Refresh == /\ opened' = RefreshOpens(known)
            /\ last'   = [act |-> "refresh", loc |-> NoLoc]
            /\ UNCHANGED <<pats, known>>
+           /\ Edge("refresh", NoLoc, opened')
 
 Remove(l) == /\ l \in known
              /\ known'  = known \ {l}
              /\ opened' = {}
              /\ last'   = [act |-> "remove", loc |-> l]
              /\ UNCHANGED pats
+             /\ Edge("remove", l, opened')
 
 \* "gen" mode: one step per (configuration, location) that evaluates the
 \* bounds of all entry points with the operators the actions above use and
@@ -220,16 +238,19 @@ Init == /\ pats \in Configs
         /\ last = [act |-> "init", loc |-> NoLoc]
         /\ (pats = {} => EmitTables)
 
-AddStep    == Mode = "mc" /\ \E l \in Locs : Add(l)
-SetURLStep == Mode = "mc" /\ \E l \in Locs : SetURL(l)
-InjectStep == Mode = "mc" /\ \E l \in Locs : Inject(l)
-RefreshStep == Mode = "mc" /\ Refresh
-RemoveStep == Mode = "mc" /\ \E l \in known : Remove(l)
+AddStep    == Mode # "gen" /\ \E l \in Locs : Add(l)
+SetURLStep == Mode # "gen" /\ \E l \in Locs : SetURL(l)
+InjectStep == Mode # "gen" /\ \E l \in Locs : Inject(l)
+RefreshStep == Mode # "gen" /\ Refresh
+RemoveStep == Mode # "gen" /\ \E l \in known : Remove(l)
 SweepStep  == Mode = "gen" /\ last.act = "init" /\ \E l \in Locs : Sweep(l)
 
 Next == AddStep \/ SetURLStep \/ InjectStep \/ RefreshStep \/ RemoveStep \/ SweepStep
 
 Spec == Init /\ [][Next]_vars
+
+\* What the real server's behaviour may depend on, as far as the spec goes.
+WalkView == <<pats, known>>
 
 \* --------------------------------------------- properties of the statement
 \* Whatever the history, a step may open only clean absolute paths matching
